@@ -64,9 +64,9 @@ Definition allb (f : bool -> bool) : bool := f true && f false.
 Lemma allb_ok : forall f, allb f = true -> forall b, f b = true.
 Proof. intros f H b. unfold allb in H. apply andb_prop in H. destruct H. destruct b; assumption. Qed.
 
-Definition allc (f : cstate -> bool) : bool := f Uninit && f Connected && f Closed.
+Definition allc (f : cstate -> bool) : bool := f Uninit && f Connecting && f Connected && f Closed.
 Lemma allc_ok : forall f, allc f = true -> forall c, f c = true.
-Proof. intros f H c. unfold allc in H. apply andb_prop in H. destruct H as [H H3]. apply andb_prop in H. destruct H. destruct c; assumption. Qed.
+Proof. intros f H c. unfold allc in H. repeat match goal with K : _ && _ = true |- _ => apply andb_prop in K; destruct K end. destruct c; assumption. Qed.
 
 Definition allst (f : st -> bool) : bool :=
   allc (fun c => allb (fun a1 => allb (fun a2 => allb (fun a3 => allb (fun a4 => allb (fun a5 => allb (fun a6 =>
@@ -90,12 +90,12 @@ Proof. intros f H h. unfold allhandler in H. repeat (apply andb_prop in H; destr
 
 Definition allev (f : event -> bool) : bool :=
   allb (fun b => f (Start b)) && allreply (fun r => f (Login r)) && allhandler (fun h => f (LoginCut h)) && f Dist && f Parents && f ParentUp &&
-  allreason (fun r => f (Lost r)) && allreason (fun r => f (LostInTracking r)) && allb (fun b => f (Tick b)) && f Command && f Stop.
+  allreason (fun r => f (Lost r)) && allreason (fun r => f (LostInTracking r)) && allb (fun b => f (Tick b)) && f TickSlow && allb (fun b => f (ConnectDone b)) && f Command && f Stop.
 Lemma allev_ok : forall f, allev f = true -> forall e, f e = true.
 Proof.
   intros f H e. unfold allev, allb, allreply, allhandler, allreason in H.
   repeat match goal with K : _ && _ = true |- _ => apply andb_prop in K; destruct K end.
-  destruct e as [[]|[]|[]| | |[]|[]| |[]| | ]; assumption.
+  destruct e as [[]|[]|[]| | |[]|[]| |[]| |[]| | ]; assumption.
 Qed.
 
 (* a boolean state predicate preserved by every step whose event passes [ok] *)
@@ -127,6 +127,7 @@ Definition reset_ok (auto : bool) (x : st) : bool :=
   implb (watchdog x) auto &&
   match conn x with
   | Connected => Bool.eqb (watchdog x) auto || stopped x
+  | Connecting => watchdog x && negb (session x) && negb (msession x) && negb (dist x) && negb (derived x) && negb (pending x)
   | _ => negb (session x) && negb (msession x) && negb (dist x) && negb (derived x) && negb (pending x)
   end.
 
@@ -136,7 +137,7 @@ Proof. vm_compute. reflexivity. Qed.
 (* after stop() from a state with no watchdog left over and no potential-parent task: quiet forever *)
 Definition not_start (e : event) : bool := match e with Start _ => false | _ => true end.
 Definition quiet_b (auto : bool) (x : st) : bool :=
-  stopped x && negb (watchdog x) && negb (parents x) && match conn x with Connected => false | _ => true end.
+  stopped x && negb (watchdog x) && negb (parents x) && match conn x with Connected | Connecting => false | _ => true end.
 
 Lemma quiet_preserved : preserved not_start quiet_b = true.
 Proof. vm_compute. reflexivity. Qed.
